@@ -1,5 +1,6 @@
 import LZ4V.Properties.C19
 import LZ4V.Properties.C08Fun
+import LZ4V.Proofs.FrameLinkedProof
 /-!
 # C19, the decompression context — reusable after any history, frames consumed one by one
 
@@ -27,5 +28,24 @@ theorem reused_context_behaves_as_fresh (E : Env) (hE : DecBounded E) (c : Ctx) 
   have h1 := chunking_independent E hE c {} [] input hc ready_fresh s1 s2
   have h2 := chunking_independent E hE {} c [] input ready_fresh hc s2 s1
   exact ⟨h1.1, h1.2, h2.2, fun a r o h => complete_only_if_spec E hE c [] input hc s1 a r o h⟩
+
+
+/-- **a compression context with any past produces a correct linked-blocks frame** (fast levels; `Model/FrameLinked.lean`): whatever the earlier frames left
+    in the context's LZ4 stream — after the `LZ4_resetStream_fast` of `LZ4F_compressBegin` that is ANY table of indexes not above `currentOffset`, any
+    `currentOffset`, no dictionary (`FastX.Inv S0 []`; the judge checks it on the state dumped from the real context at the first block) — the frame
+    produced next is one complete frame of the specification holding exactly the blocks fed, for every schedule of placements and history saves -/
+theorem reused_cctx_linked_frame_decodes (E : LZ4V.Spec.FrameL.Env) (ok : LZ4V.Model.FrameLinked.EnvOKL E) (hashOf : Array UInt8 → Bool → Nat → Nat)
+    (p : LZ4V.Model.FrameFast.Prefs) (hb : 4 ≤ p.bsid ∧ p.bsid ≤ 7) (hcs64 : p.contentSize < 256 ^ 8) (hd32 : p.dictID < 256 ^ 4)
+    (S0 : LZ4V.Model.FastX.XState) (hI0 : LZ4V.Model.FastX.Inv S0 []) (hnd0 : S0.dctx = none) (ops : List LZ4V.Model.FrameLinked.LOp)
+    (hleg : LZ4V.Model.FrameLinked.LegalSizes p ops)
+    (hcs : p.contentSize = 0 ∨ p.contentSize = (LZ4V.Model.FrameLinked.contentOf ops).length) :
+    ∃ F, LZ4V.Spec.FrameL.pFrame E [] F (LZ4V.Model.FrameLinked.frameFrom E hashOf p S0 ops) = .ok (LZ4V.Model.FrameLinked.contentOf ops, []) :=
+  ⟨_, LZ4V.Model.FrameLinked.frameFrom_parses E ok hashOf p hb hcs64 hd32 S0 hI0 hnd0 ops hleg hcs⟩
+
+/-- the hypothesis is met by every state `LZ4_resetStream_fast` makes of a state satisfying the stream invariant -/
+theorem reset_state_meets_hypothesis (S : LZ4V.Model.FastX.XState) (hJ : LZ4V.Model.FastX.JX S) :
+    LZ4V.Model.FastX.Inv (LZ4V.Model.FastX.reset S) [] ∧ (LZ4V.Model.FastX.reset S).dctx = none := by
+  obtain ⟨r1, r2⟩ := LZ4V.Model.FastX.reset_spec S hJ
+  exact ⟨⟨r1, by rw [r2]; exact LZ4V.Model.FastX.IsTail.refl _, fun D h => by cases h⟩, rfl⟩
 
 end LZ4V.C19
